@@ -2,7 +2,7 @@
    Only statements, each closed by `exact <lemma>` and followed by Print Assumptions.
    (harness/core.py reads the Print Assumptions output in this order.) *)
 From Coq Require Import ZArith List Bool String Ascii Permutation.
-From Verif Require Import Lib.Dyadic Model.C10_Attr Model.C10_File Proofs.C10_Attr Proofs.C10_File Proofs.C10_FileRT Proofs.C10_FileTop.
+From Verif Require Import Lib.Dyadic Model.C10_Attr Model.C10_File Proofs.C10_Attr Proofs.C10_File Proofs.C10_FileRT Proofs.C10_FileTop Model.C10_Session Proofs.C10_Session.
 Import ListNotations.
 Open Scope Z_scope.
 
@@ -127,6 +127,22 @@ Theorem c10_meta_nan_file_refuted :
   wf w_meta = true /\ roundtrips all_off w_meta 1 = true /\ roundtrips (set_q 2 all_off) w_meta 1 = false.
 Proof. exact meta_nan_refuted. Qed.
 Print Assumptions c10_meta_nan_file_refuted.
+
+(* ---------------------------------------------------------------- (c) history independence *)
+
+(* `decode` and `read` are Gallina functions of the stored value / the file.  In the session model with explicit state
+   (decodes interleaved with in-place mutations of earlier results) the specification answers every decode with the
+   decode of the stored value, whatever happened before *)
+Theorem decode_history_independent : forall q ops st, srun q false st ops = map (decode q) (decs ops).
+Proof. exact srun_pure. Qed.
+Print Assumptions decode_history_independent.
+
+(* a memo of parsed attribute texts (lru_cache on the parser) is NOT history independent *)
+Theorem c10_parse_memo_refuted :
+  srun false true [] ops_mut = [Some (List [Int 1; Int 2]); Some (List [Int 1; Int 2; Int 3])] /\
+  srun false false [] ops_mut = [Some (List [Int 1; Int 2]); Some (List [Int 1; Int 2])].
+Proof. exact memo_refuted. Qed.
+Print Assumptions c10_parse_memo_refuted.
 
 (* non-vacuity: the hypotheses of the partial codec theorem hold for a tree with special floats at depth *)
 Example attr_partial_nonvacuous :
